@@ -3,6 +3,7 @@ pub mod content;
 pub mod crypt;
 pub mod env;
 pub mod families;
+pub mod fmt1;
 pub mod infra;
 pub mod keys;
 pub mod prog;
